@@ -232,6 +232,23 @@ func corpus() []CorpusItem {
 				World.fail("after mutation")
 			} }`, 1)},
 	}
+	// the language scenarios (scenarios.go): every step is a target on top of the scenario world and the scenario's earlier transactions
+	for _, sc := range scenarios {
+		var pre []ExecReq
+		for _, c := range scnPrelude() {
+			pre = append(pre, tx(DeployTx(c.Name, c.Source), ScnAcct))
+		}
+		for k, stp := range sc.Steps(NewRng(3)) {
+			req := ExecReq{Kind: stp.Kind, Source: stp.Src}
+			if stp.Kind == "tx" {
+				req.Signers = []uint64{ScnAcct}
+			}
+			items = append(items, CorpusItem{Name: fmt.Sprintf("scn:%s:%d", sc.Name, k), Prelude: append([]ExecReq{}, pre...), Target: req})
+			if stp.Kind == "tx" && stp.Fails == "" {
+				pre = append(pre, req)
+			}
+		}
+	}
 	return items
 }
 
